@@ -60,6 +60,12 @@ func genOp(c *Ctx, massive bool) Op {
 	if c.Chance(1, 12) {
 		op.NilOption = true
 	}
+	if !massive && op.Kind == "output" && c.Chance(1, 6) {
+		op.NoIter = true
+	}
+	if c.Chance(1, 10) {
+		op.Decoys = true
+	}
 	return op
 }
 
